@@ -97,7 +97,7 @@ Proof.
       destruct (IH (pre ++ [sec1]) pos2 Hb Hc2 ltac:(lia)) as (t' & pos' & -> & K & Ch & Le & Nm).
       assert (L1 : lenN (pre ++ [sec1]) = lenN pre + 1) by (rewrite lenN_app; cbn; lia).
       exists (sec1 :: t'), pos'. split; [rewrite <- app_assoc; reflexivity|]. split; [|split; [|split]].
-      * constructor; [|exact K]. unfold keeps, sec1. destruct (s_index sec =? 0); [now left|right].
+      * constructor; [|exact K]. unfold keeps, sec1. destruct (N.eqb_spec (s_index sec) 0) as [Ei0|Ei0]; [now left|right; split; [exact Ei0|]].
         rewrite with_offset_small by lia. reflexivity.
       * cbn [free_list]. rewrite Efree. rewrite L1 in Ch. cbn [chain]. rewrite T4.
         destruct (N.eqb_spec (s_index sec) 0) as [E0|E0].
